@@ -273,7 +273,10 @@ def model(draw, flavour=None, max_blocks=10):
                 g['time'] = sorted(draw(pos(0.1, 1e12)) for _ in range(n))
                 g['rate'] = [draw(_memo('pm0', lambda: st.one_of(pos(1e-6, 1e6), pos(1e-6, 1e6).map(lambda v: -v), st.just(0.0)))) for _ in range(n)]
                 if draw(B()):
-                    g['itab'] = 'E'; g['enthalpy'] = [draw(pos(1e3, 3e6)) for _ in range(n)]
+                    # enthalpy tables of zeros (and tables with some zeros) are legal and must be written in full
+                    emode = draw(SF(['pos', 'pos', 'pos', 'zero', 'mixed']))
+                    g['itab'] = 'E'
+                    g['enthalpy'] = [0.0 if emode == 'zero' or (emode == 'mixed' and draw(B())) else draw(pos(1e3, 3e6)) for _ in range(n)]
             gens.append(g)
         m['generators'] = gens; present.add('GENER')
     # short output / history
